@@ -7,6 +7,17 @@ fn verif_replay() {
     let path = match std::env::var("VERIF_REPLAY") { Ok(p) => p, Err(_) => return };
     let case: serde_json::Value = serde_json::from_str(&std::fs::read_to_string(path).unwrap()).unwrap();
     let a = case["args"].clone();
+    if case["driver"].as_str() == Some("timeouts") {
+        // the timeouts section as the configuration reader sees it
+        let y = a["yaml"].as_str().unwrap_or("{}").to_string();
+        let r: Result<crate::config::Timeouts, _> = serde_yaml::from_str(&y);
+        match r {
+            Ok(t) => println!("VERIF-OUTCOME {}", serde_json::json!({"panicked": false, "parsed": true, "idle": t.idle, "udp": t.udp,
+                                                                       "idle_given": y.contains("idle"), "udp_given": y.contains("udp")})),
+            Err(e) => println!("VERIF-OUTCOME {}", serde_json::json!({"panicked": false, "parsed": false, "parse_error": e.to_string()})),
+        }
+        return;
+    }
     if case["driver"].as_str() == Some("address") {
         // a destination as the configuration reader (serde) and FromStr see it
         let text = a["text"].as_str().unwrap_or("").to_string();
